@@ -277,6 +277,16 @@ def fresh_object(E, st, qualclass, name, alts=None):
                 else:
                     alts2.append((o if isinstance(o, str) else repr(o[1]), fresh_typed(E, st, o, '%s.%s' % (name, fname))))
             st.heap[ref.oid].fields[fname] = make_lazy(E, st, alts2, name)
+    for f, path in (getattr(cc, 'aliases', None) or {}).items():
+        # field f holds the SAME object as `path` (e.g. {'_signer': 'self._omac[1]'}): set after construction as cc.aliases
+        fr = Frame({'self': ref}, None)
+        fr.spec_mode = True
+        st.frames.append(fr)
+        r = list(E.ev(ast.parse(path, mode='eval').body, st, []))
+        st.frames.pop()
+        if len(r) != 1:
+            raise Unsupported('alias path %s' % path)
+        st.heap[ref.oid].fields[f] = r[0][1]
     return ref
 
 
